@@ -12,7 +12,7 @@ import ast
 from typing import Dict, List, Optional, Set, Tuple
 
 from ..cfg import (CFG, call_name, calls_in, walk_no_nested, parents_map, guards_of, attr_chain,
-                   enum_paths, const_int, enclosing_stmt, ancestors)
+                   enum_paths, const_int, enclosing_stmt, ancestors, branches, ctext, cconds, cguards_of)
 from ..core import AnalysisError, Ctx, Func, norm
 from ..resolve import Resolver
 from ..util import stmts_sorted, reachable
@@ -265,8 +265,8 @@ def r20_3(ctx: Ctx, R: Resolver):
                 n_rm += 1
                 st_ = norm(c.func.value)
                 x_ = norm(c.args[0])
-                g_ = [(norm(t).replace(" ", ""), pol) for t, pol in guards_of(c, pms)]
-                okg = call_name(c) == "discard" or g_ == [(("%s in %s" % (x_, st_)).replace(" ", ""), True)]
+                g_ = cguards_of(c, pms)
+                okg = call_name(c) == "discard" or g_ == [ctext("%s in %s" % (x_, st_))]
                 ctx.ob("R20.3", sm, c, okg, "a known file is removed from the candidate set it belongs to, when it is in it "
                        "(guards: %s)" % g_, node=c)
     # classification by extension
@@ -275,12 +275,12 @@ def r20_3(ctx: Ctx, R: Resolver):
     for c in calls_in(cf.node):
         if call_name(c) == "add" and c.args:
             which = norm(c.func.value)
-            g_ = [(norm(t), pol) for t, pol in guards_of(c, pmc)]
+            g_ = cguards_of(c, pmc)
             reg = "ParserManager.parsers" if "coord" in which else "TopologyParserManager.parsers"
             # the extension variable: last dot-separated piece of the base name
             exts = [b_["V_e"] for _, b_ in pfind(cf.node, "V_e = V_n.split('.')[-1]")]
             ext = exts[0] if exts else "extension"
-            ctx.ob("R20.3", cf, c, g_ == [("%s in %s" % (ext, reg), True)],
+            ctx.ob("R20.3", cf, c, g_ == [ctext("%s in %s" % (ext, reg))],
                    "a file is a %s candidate exactly when its extension has a registered %s parser" % (
                        "coordinate" if "coord" in which else "topology", "coordinate" if "coord" in which else "topology"), node=c)
     # the end topology of a species: another candidate with the same molecule name, stored once
@@ -288,7 +288,7 @@ def r20_3(ctx: Ctx, R: Resolver):
         if isinstance(st, ast.Assign) and isinstance(st.targets[0], ast.Subscript) and isinstance(st.targets[0].slice, ast.Constant) \
                 and st.targets[0].slice.value in ("top_AA", "coor_AA"):
             key_ = st.targets[0].slice.value
-            g_ = sorted((norm(t).replace(" ", ""), pol) for t, pol in guards_of(st, pms))
+            g_ = cguards_of(st, pms)
             if key_ == "top_AA":
                 # names are read off the code (renaming locals must not matter)
                 rets_ = [r_ for r_ in walk_no_nested(sm.node) if isinstance(r_, ast.Return) and isinstance(r_.value, ast.Name)]
@@ -297,15 +297,13 @@ def r20_3(ctx: Ctx, R: Resolver):
                 fn_, mol_ = ([norm(e_) for e_ in lp_[0].target.elts] + ["filename", "molecule"])[:2] if lp_ else ("filename", "molecule")
                 used_ = [norm(c_.func.value) for c_ in calls_in(sm.node) if call_name(c_) == "add" and c_.args and norm(c_.args[0]) == fn_]
                 used_ = used_[0] if used_ else "used_files"
-                want = sorted([(("'top_AA' in %s[%s.name]" % (recv, mol_)).replace(" ", ""), False),
-                               (("%s not in %s and %s.name in %s" % (fn_, used_, mol_, recv)).replace(" ", ""), True)])
-                g_ = sorted((t.replace("(", "").replace(")", ""), pol) for t, pol in g_)
-                want = sorted((t.replace("(", "").replace(")", ""), pol) for t, pol in want)
+                t1_, p1_ = ctext("'top_AA' in %s[%s.name]" % (recv, mol_))
+                want = sorted([(t1_, not p1_), ctext("%s not in %s and %s.name in %s" % (fn_, used_, mol_, recv))])
                 ctx.ob("R20.3", sm, st, g_ == want,
                        "the end topology of a species is a candidate that was not used as start topology, has the species' "
                        "molecule name, and is taken only if none was stored yet (guards: %s)" % g_, node=st)
             else:
-                ctx.ob("R20.3", sm, st, any(t.startswith("'coor_AA'notin") and pol for t, pol in g_)
+                ctx.ob("R20.3", sm, st, any(t.startswith("'coor_AA' in ") and not pol for t, pol in cguards_of(st, pms, split=True))
                        and not any(isinstance(a_, ast.Try) and st in a_.body for a_ in ancestors(st, pms)),
                        "the end coordinates of a species are the first candidate that loads with its end topology (stored in the "
                        "else-branch of the trial load, only while none is stored)", node=st)
